@@ -372,15 +372,33 @@ def full_product(n, T, values, lo=0, hi=None):
     return out
 
 
-def deviations(n, T, baseline, values, d):
-    """all score vectors that differ from the constant baseline in at most d entries (each deviation over values \\ {baseline})"""
+def baseline_vector(n, T, baseline):
+    """a constant baseline (number) or a named graded one: dyadic values that differ between entries, so that the agenda order is
+    decided by the scores and not by ties ('g1': a residue pattern; 'g2': tags get worse with their index, attachments with distance)"""
     N = n_entries(n, T)
-    alts = [v for v in values if v != baseline]
+    if not isinstance(baseline, str):
+        return [float(baseline)] * N
+    tag = np.zeros((n, T)); dep = np.zeros((n, n + 1))
+    for i in range(n):
+        for t in range(T):
+            tag[i, t] = -0.25 * ((i + 2 * t) % 4) if baseline == 'g1' else -0.5 * t - 0.125 * (i % 2)
+        for h in range(n + 1):
+            dep[i, h] = -0.125 * ((3 * i + 5 * h) % 8) if baseline == 'g1' else -0.25 * abs(i + 1 - h)
+    if baseline not in ('g1', 'g2'):
+        raise ValueError(baseline)
+    return [float(v) for v in list(tag.reshape(-1)) + list(dep.reshape(-1))]
+
+
+def deviations(n, T, baseline, values, d):
+    """all score vectors that differ from the baseline (constant or graded, see baseline_vector) in at most d entries
+    (each deviation over values \\ {baseline value of that entry})"""
+    N = n_entries(n, T)
+    b = baseline_vector(n, T, baseline)
     rows = []
     for k in range(d + 1):
         for pos in itertools.combinations(range(N), k):
-            for vs in itertools.product(alts, repeat=k):
-                r = [baseline] * N
+            for vs in itertools.product(*[[v for v in values if v != b[p]] for p in pos]):
+                r = list(b)
                 for p, v in zip(pos, vs):
                     r[p] = v
                 rows.append(r)
